@@ -14,4 +14,4 @@ AMP_KINDS = ["reset", "datagram_received", "datagram_sent", "rxp", "txp", "txf",
 CID_KINDS = ["reset", "tp", "txf", "rxf", "panic", "stall"]
 CID_ONLY = {"txf": "_cid", "rxf": "_cid"}
 LIVE_KINDS = ["reset", "rxp", "txp", "metrics", "conn_closed", "app_send_call", "app_send", "app_finish", "app_send_done", "app_eos", "app_send_err", "app_recv_err", "app_reset", "app_stop", "app_timeout", "sim_end", "panic", "stall"]
-RECV_KINDS = ["reset", "rxf", "txf", "app_open", "app_recv", "app_eos", "conn_closed", "sim_end", "panic", "stall"]
+RECV_KINDS = ["reset", "rxf", "txf", "app_open", "app_recv", "app_eos", "app_stop", "conn_closed", "sim_end", "panic", "stall"]
